@@ -1,7 +1,7 @@
 (* C03 — slicing and indexing select exactly the requested symbols, or refuse.
    For every codec with codec_ok, every sequence (as its code list xs) and every range. *)
 From Coq Require Import List NArith Bool Arith.
-From BioSeq Require Import Bits Codec Tables SeqModel SeqProofs VM Refine.
+From BioSeq Require Import Bits Codec Tables SeqModel SeqProofs VM Refine Nested.
 Import ListNotations.
 
 (* in bounds: exactly b-a symbols, the i-th being the parent's (a+i)-th *)
@@ -97,6 +97,23 @@ Theorem C03_access_beyond_end_in_any_history :
               out st' = [0%N] :: out st.
 Proof. exact nth_beyond_end_panics. Qed.
 
+(* ... and a nest of ranges of ANY depth, mixing the seven range forms freely, reached in ANY
+   history, denotes ONE window of the parent: its offset is the sum of the starts chosen at each
+   level ([loffset]), the slice is the packing of exactly those symbols, symbol i of the slice is
+   symbol o + i of the parent, and it is refused exactly when some level leaves its parent *)
+Theorem C03_nested_ranges_one_window_in_any_history :
+  forall (C : codec) (st : state) (l : lstate) (r : N) (rs : list (N * N * N)) (xs ys : list N),
+  abs C st l -> lget l r = Some xs -> lapply xs rs = Some ys ->
+  exists o w, loffset (length xs) rs = Some (o, w) /\ o + w <= length xs /\
+              slice_of C st (SD r rs) = Some (encode (c_bits C) (firstn w (skipn o xs))) /\
+              forall i, i < w -> nth i ys 0%N = nth (o + i) xs 0%N.
+Proof. exact nested_slice_in_any_history. Qed.
+
+Theorem C03_nested_ranges_refused_iff_some_level_leaves :
+  forall (rs : list (N * N * N)) (xs : list N),
+  lapply xs rs = None <-> loffset (length xs) rs = None.
+Proof. exact nested_ranges_refused_iff. Qed.
+
 Print Assumptions C03_range_in_bounds.
 Print Assumptions C03_range_out_of_bounds_panics.
 Print Assumptions C03_all_range_forms.
@@ -107,3 +124,5 @@ Print Assumptions C03_nth_beyond_end_panics.
 Print Assumptions C03_get.
 Print Assumptions C03_out_of_bounds_slice_panics_in_any_history.
 Print Assumptions C03_access_beyond_end_in_any_history.
+Print Assumptions C03_nested_ranges_one_window_in_any_history.
+Print Assumptions C03_nested_ranges_refused_iff_some_level_leaves.
